@@ -18,6 +18,16 @@ CLAIMS = {
     note=COMMON_NOTE + 'Full strength for the model; object aliasing in the Python code is not expressible in the model and is covered by the snapshots only.',
     technique='Lean 4 proof: invariant relation (Step) by weakest-precondition tactic over the whole model + differential correspondence',
     ref='7 C04'),
+ 'C03': dict(
+    text='Proved for the model, universally: text that leaves through replaceSpecialChars has no < or > and every & starts one of its three entities; a group '
+         'substituted for $n in any template contains no ", < or > whatever the source and macro table (it cannot end its attribute value or open a tag); '
+         'the HTML policy emits nothing / the replacement / the escaped text; the groups that reach attributes unescaped (CSS, class names, ids, delimiter '
+         'class names) cannot contain " resp. any of " < > & - facts of the regenerated regular expressions lifted to all inputs by a group-alphabet '
+         'analysis proved sound against the matcher semantics; definitions stay the defaults in safe modes (C04). The composition into "the whole output is in '
+         'the safe language" is not proved: it is decided by a strict output tokenizer on generated hostile sessions in the 12 modes, on implementation and model.',
+    note=COMMON_NOTE + 'Partial: component theorems + regenerated facts are proofs; the end-to-end statement is exploration (strict tokenizer) and the manifest says so.',
+    technique='Lean 4 proof of the escaping / group-alphabet components (static analysis on regenerated regexes, sound w.r.t. matcher semantics) + differential correspondence + strict output tokenizer',
+    ref='7 C03'),
  'C05': dict(
     text='Proved for the model: with reset=True or "true" the whole result of a render call (html or exception, messages, final state) is the same '
          'from any two sessions that agree on lists.ids, spans.savedReplacements and the log, in particular the same as in a fresh process; '
